@@ -98,6 +98,18 @@ func c04Subset(c *Ctx, S *ssa.Function) {
 					okWL, bad = false, in.String()
 				}
 			default:
+				// formatting / logging of the arguments takes no part in the comparison
+				if onlyFormatted(in, 0) {
+					continue
+				}
+				if _, isAlloc := in.(*ssa.Alloc); isAlloc {
+					continue // variadic argument array of such a call (its uses are checked at the call)
+				}
+				if ia, isIA := in.(*ssa.IndexAddr); isIA {
+					if _, ok := ia.X.(*ssa.Alloc); ok {
+						continue
+					}
+				}
 				okWL, bad = false, fmt.Sprintf("%T %s", in, in)
 			}
 		}
@@ -302,7 +314,9 @@ func c04Verifier(c *Ctx, V *ssa.Function, sCall *ssa.Call, S, P *ssa.Function) {
 				okIdx = false
 			}
 		default:
-			okIdx = false
+			if !onlyFormatted(r, 0) {
+				okIdx = false
+			}
 		}
 	}
 	c.Check(okIdx && n0 > 0, "verifier/leaf-only", "the certificate chain is read only at constant index 0 (never an intermediate's or root's subject)", w.FnPos(V), "the chain parameter is used other than as certs[0]")
